@@ -653,15 +653,19 @@ def data_roots(repo, uni, fi):
     parameters; `value` of smart-type check/convert; own parameters of
     functions nested in those)."""
     roots = set()
+    nested = set()
+    data_ancestor = False
     f = fi
     while f is not None:
         ovs = uni.payload_ov.get(f.key)
         if ovs:
+            data_ancestor = True
             for p in ovs[0].params:
                 if not p.type.hidden and not p.type.lazy:
                     roots.add(p.name)
         elif f.is_method and f.name in ('convert', 'check') and \
                 f.module.name == 'yaql.language.yaqltypes':
+            data_ancestor = True
             ps = f.params()
             if len(ps) > 1:
                 roots.add(ps[1])
@@ -669,8 +673,12 @@ def data_roots(repo, uni, fi):
             for n in f.params():
                 if n not in unimod.CTX_NAMES and n not in \
                         unimod.HIDDEN_NAMES and n != 'self':
-                    roots.add(n)
+                    nested.add(n)
         f = f.parent_func
+    # the parameters of a nested function hold data only when the function
+    # is nested in something that receives data
+    if data_ancestor:
+        roots |= nested
     return roots
 
 
